@@ -121,6 +121,142 @@ func errPropagated(fn *ssa.Function, errv ssa.Value) bool {
 	return found
 }
 
+// c13RoundTripOfParser: the local variable al, read by ld, holds Canonicalize(parser result) without the call: it is
+// written by nothing but json.Unmarshal (at least once, before ld), every such json.Unmarshal decodes the bytes
+// json.Marshal produced (the shape canonFresh demands of Canonicalize itself: jsonRoundTrip), what was marshalled is
+// the pattern parser's result (or the address of a variable holding nothing else), and the errors of both calls make
+// ParsePatterns fail.
+func c13RoundTripOfParser(al *ssa.Alloc, ld *ssa.UnOp, scope []*ssa.Function, isParserCall func(ssa.Instruction) (*ssa.Call, bool), propagatedUp func(*ssa.Function, ssa.Value, int) bool) (bool, string) {
+	inScope := map[*ssa.Function]bool{}
+	for _, f := range scope {
+		inScope[f] = true
+	}
+	// who can write through a pointer to the variable: json.Unmarshal only (the pointer may be handed to a helper in scope)
+	var fills []*ssa.Call
+	var onlyFilled func(ptr ssa.Value, depth int) bool
+	onlyFilled = func(ptr ssa.Value, depth int) bool {
+		if depth > 3 {
+			return false
+		}
+		for _, r := range ssau.Referrers(ptr) {
+			switch x := r.(type) {
+			case *ssa.DebugRef:
+			case *ssa.UnOp:
+				if x.Op != token.MUL {
+					return false
+				}
+			case *ssa.MakeInterface, *ssa.ChangeType:
+				if !onlyFilled(x.(ssa.Value), depth+1) {
+					return false
+				}
+			case *ssa.Call:
+				if ssau.CalleeName(x) == "encoding/json.Unmarshal" && len(x.Common().Args) == 2 && x.Common().Args[1] == ptr && x.Common().Args[0] != ptr {
+					fills = append(fills, x)
+					continue
+				}
+				sc := x.Common().StaticCallee()
+				if sc == nil || !inScope[sc] || sc.Blocks == nil {
+					return false
+				}
+				for i, a := range x.Common().Args {
+					if a == ptr && (i >= len(sc.Params) || !onlyFilled(sc.Params[i], depth+1)) {
+						return false
+					}
+				}
+			default:
+				return false
+			}
+		}
+		return true
+	}
+	if !onlyFilled(al, 0) {
+		return false, "the variable is written by something other than json.Unmarshal"
+	}
+	if len(fills) == 0 {
+		return false, "the variable is never filled by json.Unmarshal"
+	}
+	before := false
+	for _, um := range fills {
+		dsts, marshals, ok := jsonRoundTrip(um, scope)
+		if !ok || len(dsts) != 1 || dsts[0] != al {
+			return false, "json.Unmarshal does not decode what json.Marshal wrote, into this variable alone"
+		}
+		if um.Parent() == ld.Parent() && flow.InstrDominates(um, ld) {
+			before = true
+		} else if um.Parent() != ld.Parent() {
+			// filled in a helper that was handed the address: the helper call must come before the read
+			for _, r := range ssau.Referrers(al) {
+				if hc, isC := r.(*ssa.Call); isC && hc.Parent() == ld.Parent() && flow.InstrDominates(hc, ld) {
+					before = true
+				}
+			}
+		}
+		if !propagatedUp(um.Parent(), um, 0) {
+			return false, "json.Unmarshal error dropped"
+		}
+		for _, m := range marshals {
+			if len(m.Common().Args) != 1 {
+				return false, "unexpected json.Marshal call"
+			}
+			if !propagatedUp(m.Parent(), callResults(m)[1], 0) {
+				return false, "json.Marshal error dropped"
+			}
+			// what is marshalled: the parser's result, or the address of a variable that holds only that
+			var vals []ssa.Value
+			for _, a := range deepDefs(m.Common().Args[0], scope) {
+				src, isAl := a.(*ssa.Alloc)
+				if !isAl {
+					vals = append(vals, a)
+					continue
+				}
+				n := 0
+				for _, r := range ssau.Referrers(src) {
+					switch y := r.(type) {
+					case *ssa.Store:
+						if y.Addr != ssa.Value(src) {
+							return false, "the marshalled variable escapes"
+						}
+						n++
+						vals = append(vals, deepDefs(y.Val, scope)...)
+					case *ssa.UnOp, *ssa.DebugRef:
+					case *ssa.MakeInterface:
+						for _, r2 := range ssau.Referrers(y) {
+							if cl, isC := r2.(*ssa.Call); !isC || ssau.CalleeName(cl) != "encoding/json.Marshal" {
+								if _, isD := r2.(*ssa.DebugRef); !isD {
+									return false, "the marshalled variable escapes"
+								}
+							}
+						}
+					default:
+						return false, "the marshalled variable escapes"
+					}
+				}
+				if n == 0 {
+					return false, "the marshalled variable is never set"
+				}
+			}
+			if len(vals) == 0 {
+				return false, "nothing is marshalled"
+			}
+			for _, a := range vals {
+				fromParser := false
+				if ex2, is := a.(*ssa.Extract); is && ex2.Index == 0 {
+					if pc, is := ex2.Tuple.(*ssa.Call); is {
+						_, fromParser = isParserCall(pc)
+					}
+				}
+				if !fromParser {
+					return false, "json.Marshal is not applied to the parser's result (" + a.String() + ")"
+				}
+			}
+		}
+	}
+	if !before {
+		return false, "the variable is read before json.Unmarshal fills it"
+	}
+	return true, ""
+}
+
 func callResults(call *ssa.Call) map[int]ssa.Value {
 	out := map[int]ssa.Value{}
 	for _, r := range ssau.Referrers(call) {
@@ -402,6 +538,16 @@ func C13(c *Ctx) {
 		for _, d := range deepDefs(st.Val, pcFns) {
 			if nilOK && ssau.IsNilConst(d) {
 				continue
+			}
+			// the construct Canonicalize consists of, written out in place: the variable json.Unmarshal filled from
+			// the bytes json.Marshal made of the parser's result
+			if ld, isLd := d.(*ssa.UnOp); isLd && ld.Op == token.MUL {
+				if al, isAl := ld.X.(*ssa.Alloc); isAl {
+					if okRT, whyRT := c13RoundTripOfParser(al, ld, pcFns, isParserCall, propagatedUp); !okRT {
+						ok, why = false, "stored pattern may be "+d.String()+": "+whyRT
+					}
+					continue
+				}
 			}
 			ex, isEx := d.(*ssa.Extract)
 			if !isEx || ex.Index != 0 {
